@@ -190,10 +190,71 @@ def to_tokens(n, trace):
     return toks, info
 
 
+def tok_to_gallina(tok):
+    """Same reading of a token as extract/work/driver.ml (used for the vm_compute cross-check of the extraction)."""
+    f = tok.split(":")
+    tag, rest = f[0][0], f[0][1:]
+    some = lambda a, b: "(Some (%s, %s))" % (a, b)
+    if tag == "E": return "TStep (LEnqueue %s) None None None" % rest
+    if tag == "G": return ("TStep (LSignal None) None None None" if rest == "-" else
+                           "TStep (LSignal (Some %s)) %s None None" % (rest, some(rest, 1)))
+    if tag == "S": return "TStep (LStart %s) %s None None" % (rest, some(rest, f[1]))
+    if tag == "R": return "TStep (LRetest %s) %s None None" % (rest, some(rest, f[1]))
+    if tag == "P": return "TStep (LSpurious %s) None None None" % rest
+    if tag == "D": return "TStep (LDie %s) %s None None" % (rest, some(rest, 4))
+    if tag == "F": return "TStep (LFinish %s) %s None (Some %s)" % (rest, some(rest, f[1]), "true" if f[2] == "1" else "false")
+    if tag == "J": return "TJob %s %s" % (rest, f[1])
+    if tag == "W": return "TStep LWaitEnter None (Some %s) None" % f[1]
+    if tag == "Z": return "TStep (LFiniEnter %s) None (Some %s) None" % ("true" if rest == "1" else "false", f[1])
+    if tag == "K": return "TStep LWaitWake None (Some %s) None" % f[1]
+    if tag == "A": return "TStep LAccSpurious None None None"
+    if tag == "C": return "TStep LCancel None (Some %s) None" % f[1]
+    if tag == "N": return "TStep LJoin None (Some %s) None" % f[1]
+    raise ValueError(tok)
+
+
+def extraction_crosscheck(ctx, lines, mod, proved):
+    """A sample of the oracle's verdicts recomputed inside Coq with vm_compute."""
+    samp = [i for i in range(0, len(lines), max(1, len(lines) // 12)) if len(lines[i]) < 6000][:12]
+    exprs = []
+    for i in samp:
+        f = lines[i].split()
+        try:
+            evs = "; ".join(tok_to_gallina(t) for t in f[3:])
+        except (ValueError, IndexError):
+            return
+        exprs.append("let r := check_trace code_wait_cond code_fini_cond (init %s) 0 [%s] in "
+                     "(fst r, aclass (acc (snd r)), length (done (snd r)))" % (f[2], evs))
+    res, e3 = vlib.coq_eval_sample(ctx, "From Coq Require Import List.\nFrom MV Require Import WorkModel GenWork.\nImport ListNotations.", exprs)
+    if res is None or len(res) != len(samp):
+        ctx.notes.append("extraction cross-check could not run: %s" % (e3 or "")[-300:])
+        if proved:
+            ctx.violation("vm_compute cross-check of extraction failed to run", {"obligation": "extraction cross-check", "err": e3}, found_input=False)
+        return
+    bad = 0
+    for i, r in zip(samp, res):
+        m = mod[i].split()
+        nums = re.findall(r"\d+", r)
+        if m[1] == "ok":
+            fm = dict(t.split("=") for t in m[2:])
+            ndone = 0 if fm["done"] == "-" else len(fm["done"].split("."))
+            if "None" not in r or nums[-2:] != [fm["acc"], str(ndone)]:
+                bad += 1
+        elif m[1] == "reject":
+            if "Some %s" % m[2] not in r:
+                bad += 1
+    ctx.cov["extraction_crosscheck"] = {"cases": len(samp), "disagreements": bad}
+    if bad:
+        ctx.violation("extracted oracle disagrees with vm_compute on %d sample traces" % bad,
+                      {"obligation": "extraction cross-check"}, found_input=False)
+
+
 # --------------------------------------------------------------------------- running
-def run_harness(ctx, exe, progs, hang_secs=20, env_extra=None, timeout=1500):
-    """Runs the programs; a hang ends the process (watchdog), the rest is run in a new one."""
+def run_harness(ctx, exe, progs, hang_secs=12, env_extra=None, timeout=1500, max_hangs=2):
+    """Runs the programs; a hang ends the process (watchdog), the rest is run in a new one
+    (after max_hangs hangs the remaining programs are not run: the verdict is already a violation)."""
     out = []
+    hangs = 0
     stderr_all = ""
     todo = list(progs)
     env = {"ASAN_OPTIONS": "detect_leaks=0:abort_on_error=0:exitcode=99", "UBSAN_OPTIONS": "print_stacktrace=1"}
@@ -210,6 +271,10 @@ def run_harness(ctx, exe, progs, hang_secs=20, env_extra=None, timeout=1500):
             break
         if rc == 3 and lines:              # watchdog: the last line is the hang report
             todo = todo[len(lines):]
+            hangs += 1
+            if hangs >= max_hangs:
+                out += ["R notrun=1"] * len(todo)
+                break
             continue
         # crash / sanitizer abort: the program after the last answered one killed the process
         out.append("R crash=1 rc=%d" % rc)
@@ -262,6 +327,9 @@ def run(ctx):
     replay = None
     if ctx.replay:
         replay = json.load(open(ctx.replay))
+    if replay and replay.get("finding_key") == FINDING_KEY_ACCEPT:
+        accept_window(ctx)
+        return
     if replay and "case_line" in replay:
         progs = [replay["case_line"]] * int(replay.get("repeat", 1))
         witnesses = []
@@ -273,7 +341,7 @@ def run(ctx):
     corr = []          # (program, what)
     # ---- deterministic witness replays (the two _refuted schedules of Properties_C12.v) ----
     for name, prog, rep in witnesses:
-        outs, _ = run_harness(ctx, exe, [prog] * rep, hang_secs=10)
+        outs, _ = run_harness(ctx, exe, [prog] * rep, hang_secs=6, max_hangs=1)
         bad = None
         for o in outs:
             ctx.count(("witness", name, o))
@@ -301,15 +369,23 @@ def run(ctx):
         dist["n"][f[1]] = dist["n"].get(f[1], 0) + 1
         for op in f[4:]:
             dist["ops"][op[0]] = dist["ops"].get(op[0], 0) + 1
+        if res is not None and res.get("notrun"):
+            continue
         if res is not None and res.get("crash"):
             failures.append((prog, o, "work.c crashes or aborts under ASan/UBSan: " + stderr[:1500], {}))
             continue
-        why = property_holds(prog, res)
+        try:
+            why = property_holds(prog, res)
+        except (ValueError, KeyError, IndexError) as ex:
+            corr.append((prog, "harness answer cannot be parsed (%r)" % ex, o)); continue
         if why:
             failures.append((prog, o, why, {}))
         if res and "trace" in res and res.get("hang") != "1":
             n = int(f[1])
-            toks, info = to_tokens(n, res["trace"])
+            try:
+                toks, info = to_tokens(n, res["trace"])
+            except (ValueError, KeyError, IndexError) as ex:
+                corr.append((prog, "event log cannot be parsed (%r)" % ex, o)); continue
             nev += len(toks)
             ctx.cov["spurious_wakeups_seen"] = ctx.cov.get("spurious_wakeups_seen", 0) + info["spurious"] + info["acc_spurious"]
             lines_for_oracle.append("T code %d %s" % (n, " ".join(toks)))
@@ -339,6 +415,7 @@ def run(ctx):
                 corr.append((progs[i], "final state differs: model %s / implementation done=%s left=%s" % (m, done_impl, left_impl), outs[i]))
             else:
                 nok += 1
+        extraction_crosscheck(ctx, lines_for_oracle, mod, proved)
         ctx.cov["traces_validated_against_impl"] = nok
         ctx.cov["trace_events_checked"] = nev
         ctx.log("LTS accepted %d/%d event logs (%d labels)" % (nok, len(lines_for_oracle), nev))
@@ -352,16 +429,22 @@ def run(ctx):
     # ---- verdict ----
     code_ok = (tabs["wait"] == TAB_OR and tabs["fini"] == TAB_OR)
     if failures:
-        prog, o, why, extra = failures[0]
-        rep = dict(extra)
-        rep.update({"case_line": prog, "impl_output": o[:3000], "why": why, "n_failing": len(failures),
-                    "more": [(p, w) for p, _, w, _ in failures[1:6]],
-                    "code_guards": ctx.cov["code_guards"],
-                    "model_says": "C12_code_verdict: verified instance" if code_ok else
-                                  "C12_code_verdict: refuted (wait_bad / fini_bad witness exists for the probed guards)"})
-        rep.setdefault("repeat", 1)
-        ctx.violation("%s: program `%s` (%d failing programs; wait-loop guards of work.c: work_wait `%s`, work_fini `%s`)"
-                      % (why, prog, len(failures), ctx.cov["code_guards"]["wait"], ctx.cov["code_guards"]["fini"]), rep)
+        # one violation per kind of failure (e.g. work_wait returning early / work_fini losing an item)
+        seen = {}
+        for fl in failures:
+            kind = " ".join(fl[2].split()[:3])
+            seen.setdefault(kind, []).append(fl)
+        for kind, fls in list(seen.items())[:3]:
+            prog, o, why, extra = fls[0]
+            rep = dict(extra)
+            rep.update({"case_line": prog, "impl_output": o[:3000], "why": why, "n_failing": len(fls),
+                        "more": [(p, w) for p, _, w, _ in fls[1:6]],
+                        "code_guards": ctx.cov["code_guards"],
+                        "model_says": "C12_code_verdict: verified instance" if code_ok else
+                                      "C12_code_verdict: refuted (wait_bad / fini_bad witness exists for the probed guards)"})
+            rep.setdefault("repeat", 1)
+            ctx.violation("%s: program `%s` (%d failing programs of this kind; wait-loop guards of work.c: work_wait `%s`, "
+                          "work_fini `%s`)" % (why, prog, len(fls), ctx.cov["code_guards"]["wait"], ctx.cov["code_guards"]["fini"]), rep)
     elif not code_ok:
         ctx.violation("the wait-loop guards probed from work.c (%s / %s) are not the verified ones and Coq proves a violating "
                       "schedule for them (C12_code_verdict), but no generated program showed the violation"
@@ -395,7 +478,7 @@ def tsan_pass(ctx, src, wrapflags, progs, failures):
     ctx.log("TSan: %d programs, %d data-race reports" % (len(progs), nrace))
     if nrace:
         m = re.search(r"WARNING: ThreadSanitizer: data race.*?(?=\n=+\n|\Z)", stderr, re.S)
-        if "work.c" in stderr:
+        if "src/munged/work.c" in stderr:
             failures.append((progs[0], "", "ThreadSanitizer reports a data race in work.c: " + (m.group(0)[:1200] if m else ""), {}))
 
 
@@ -404,6 +487,7 @@ def accept_window(ctx):
     if not (shutil_which("gdb")):
         ctx.notes.append("F-C12-accept: gdb not available, not replayed"); return
     d = os.path.join(ctx.tmp, "daemon"); os.makedirs(d, exist_ok=True)
+    os.chmod(ctx.tmp, 0o755); os.chmod(d, 0o755)       # munged insists on a world-searchable socket directory
     R = vlib.REPO
     srcs = []
     am = open(os.path.join(R, "src/munged/Makefile.am")).read()
@@ -432,30 +516,57 @@ set confirm off
 handle SIGTERM nostop noprint pass
 break accept
 run
-python import os, gdb; os.kill(gdb.selected_inferior().pid, 15)
-delete
 python
 import threading, os, time, gdb
 pid = gdb.selected_inferior().pid
-def later():
-    time.sleep(6)
-    try: os.kill(pid, 9)
-    except Exception: pass
-threading.Thread(target=later, daemon=True).start()
+if pid > 1:
+    print("VERIF-AT-ACCEPT pid=%d" % pid)
+    os.kill(pid, 15)
+    def later():
+        time.sleep(6)
+        try: os.kill(pid, 9)
+        except Exception: pass
+    threading.Thread(target=later, daemon=True).start()
+else:
+    print("VERIF-NOT-RUNNING")
 end
+delete
 continue
 """)
     t0 = time.time()
-    rc, out, err = vlib.sh(["gdb", "-q", "-batch", "-x", gdbcmds, "--args", exe] + args, timeout=60)
+    try:    # own session: nothing the gdb script does can signal the check's process group
+        pr = subprocess.run(["gdb", "-q", "-batch", "-x", gdbcmds, "--args", exe] + args, capture_output=True, text=True,
+                            timeout=60, start_new_session=True, stdin=subprocess.DEVNULL)
+        out, err = pr.stdout, pr.stderr
+    except subprocess.TimeoutExpired:
+        ctx.notes.append("F-C12-accept: gdb timed out, not replayed"); return
     waited = time.time() - t0
     log = open(os.path.join(d, "log")).read() if os.path.exists(os.path.join(d, "log")) else ""
-    exited = "Exiting on signal" in log
-    ctx.cov["accept_window"] = {"exited_on_signal": exited, "seconds": round(waited, 1)}
-    ctx.log("F-C12-accept replay: daemon %s" % ("exited on the signal" if exited else "ignored SIGTERM until killed after 6 s"))
-    if not exited and "Breakpoint 1" in out + err:
+    exited = "Exiting on signal" in (log + out + err) or "exited normally" in out
+    if "VERIF-AT-ACCEPT" not in out:
+        ctx.notes.append("F-C12-accept: the daemon did not reach accept() under gdb, not replayed: " + (out + err)[-300:]); return
+    # control: the same signal while the daemon is blocked inside accept() stops it at once
+    for f in ("log", "sock", "pid", "sock.lock"):
+        try: os.unlink(os.path.join(d, f))
+        except OSError: pass
+    ctl = subprocess.Popen([exe] + args, stdout=subprocess.DEVNULL, stderr=subprocess.DEVNULL, start_new_session=True)
+    t1 = time.time()
+    while not os.path.exists(os.path.join(d, "sock")) and time.time() - t1 < 5:
+        time.sleep(0.05)
+    time.sleep(0.3)
+    ctl.terminate()
+    try:
+        ctl.wait(timeout=5); control_ok = True
+    except subprocess.TimeoutExpired:
+        ctl.kill(); ctl.wait(); control_ok = False
+    ctx.cov["accept_window"] = {"exited_on_signal": exited, "seconds": round(waited, 1), "control_exits_at_once": control_ok}
+    ctx.log("F-C12-accept replay: daemon %s (control: SIGTERM while blocked in accept %s)"
+            % ("exited on the signal" if exited else "ignored SIGTERM until killed after 6 s",
+               "stops it at once" if control_ok else "DID NOT stop it"))
+    if not exited:
         ctx.violation("SIGTERM delivered between the `while (!got_terminate)` test and accept() is not acted on: the idle "
                       "daemon kept running until killed (C12_sigterm_window_refuted; no deadlock-free stop)",
-                      {"finding_key": FINDING_KEY_ACCEPT, "gdb_script": open(gdbcmds).read(), "daemon_log": log[-1500:],
+                      {"finding_key": FINDING_KEY_ACCEPT, "gdb_script": open(gdbcmds).read(), "daemon_output": (log + out + err)[-1500:],
                        "model_trace": "[XTest; XSignal; XDeliver; XCall]"})
 
 
